@@ -458,3 +458,14 @@ def run(ctx):
     r2_purity(ctx, docs)
     r3_stateless(ctx)
     r4_prefix(ctx)
+    # between the files and the chunker (and inside the adapter's Python part) every byte is handed on exactly once
+    from .shared import no_negative_zero_slices
+
+    props = ctx.corpus.cls('repository', 'RepositoryProps')
+    adapters = ctx.corpus.module('adapters')
+    funcs = list(props.methods.values()) + [m for c in adapters.classes.values() for m in c.methods.values()] + list(adapters.functions.values())
+    funcs += [n for f in list(funcs) for n in f.all_nested()]
+    sn = ctx.corpus.func('repository', 'Repository.snapshot')
+    funcs += [sn] + list(sn.all_nested())
+    no_negative_zero_slices(ctx, 'C10.R4', funcs, 'the piece is handed to the chunker a second time - the chunks no longer concatenate to the input')
+
